@@ -814,7 +814,9 @@ def exhaustive_small_list(ctx, g):
         for b in list(R) + [None]:
             for st in (None, 1, 2, -1, -2, 3):
                 judge("[%s:%s:%s]" % (a, b, st), outcome(lambda: [allm.index(y) for y in ir.modules[a:b:st]]), outcome(lambda: l[a:b:st]))
-    for i in R:
+    # (beyond the machine word, and not integers at all: the built-in refuses -- OverflowError / IndexError / TypeError -- and
+    # is left untouched; so must the module list AND the modules' ownership be)
+    for i in list(R) + [1 << 63, (1 << 64) - 1, -(1 << 63) - 1, None, 1.5, "0", True]:
         for name in ("insert", "pop", "del", "setitem"):
             ir, ms, extra, l = fresh()
             allm = ms + [extra]
@@ -826,7 +828,9 @@ def exhaustive_small_list(ctx, g):
                 ri, rs = outcome(lambda: ir.modules.__delitem__(i)), outcome(lambda: l.__delitem__(i))
             else:
                 ri, rs = outcome(lambda: ir.modules.__setitem__(i, extra)), outcome(lambda: l.__setitem__(i, 3))
-            judge("%s(%d)" % (name, i), ri, rs, ir, ms, extra, l)
+            judge("%s(%r)" % (name, i), ri, rs, ir, ms, extra, l)
+        if not isinstance(i, int) or isinstance(i, bool) or abs(i) > 8:
+            continue
         for j in list(R) + [None]:
             for name in ("delslice", "setslice"):
                 ir, ms, extra, l = fresh()
@@ -836,6 +840,13 @@ def exhaustive_small_list(ctx, g):
                 else:
                     ri, rs = outcome(lambda: ir.modules.__setitem__(sl, [extra])), outcome(lambda: l.__setitem__(sl, [3]))
                 judge("%s[%s:%s]" % (name, i, j), ri, rs, ir, ms, extra, l)
+    # a right-hand side that is no iterable at all: the built-in raises TypeError and changes nothing
+    for rhs_name in ("a module", "None", "5"):
+        for sl in (slice(0, 1), slice(None, None), slice(0, 3, 2)):
+            ir, ms, extra, l = fresh()
+            rhs_i, rhs_b = {"a module": (extra, 3), "None": (None, None), "5": (5, 5)}[rhs_name]
+            ri, rs = outcome(lambda: ir.modules.__setitem__(sl, rhs_i)), outcome(lambda: l.__setitem__(sl, rhs_b))
+            judge("setslice[%s] = %s" % (sl, rhs_name), ri, rs, ir, ms, extra, l)
     for name in ("pop()", "clear()", "reverse()", "extend([free])", "+= [free]", "remove(m1)", "append(free)"):
         ir, ms, extra, l = fresh()
         f = {"pop()": (lambda: (ms + [extra]).index(ir.modules.pop()), lambda: l.pop()), "clear()": (lambda: ir.modules.clear(), lambda: l.clear()),
@@ -941,13 +952,16 @@ def exhaustive_small_sets(ctx, g):
 
 def d4_stream(ctx, g):
     """the recorded defect: assigning into ir.modules an element that is elsewhere in the same list, and reverse()"""
-    for shape in ("setitem-same-list", "setslice-same-list"):
+    for shape in ("setitem-same-list", "setslice-same-list", "setslice-repeated-value"):
         ir = g.IR()
         ms = [g.Module(name=str(i), ir=ir) for i in range(3)]
         if shape == "setitem-same-list":
             r = call(g, lambda: ir.modules.__setitem__(2, ms[0]))
-        else:
+        elif shape == "setslice-same-list":
             r = call(g, lambda: ir.modules.__setitem__(slice(2, 3), [ms[0]]))
+        else:
+            ms.append(g.Module(name="n"))
+            r = call(g, lambda: ir.modules.__setitem__(slice(0, 1), [ms[3], ms[3]]))
         lst = list(ir.modules)
         consistent = all(m.ir is ir for m in lst) and len(set(map(id, lst))) == len(lst) \
             and all((m in lst) == (m.ir is ir) for m in ms) and all((ir.get_by_uuid(m.uuid) is m) == (m in lst) for m in ms)
@@ -955,7 +969,7 @@ def d4_stream(ctx, g):
         if not consistent:
             ctx.add("oracle", "listwrapper-" + shape,
                     "ir.modules %s with 3 modules: %s; list is %s, .ir set for %s" %
-                    ("[2] = modules[0]" if shape == "setitem-same-list" else "[2:3] = [modules[0]]", r, [ms.index(m) for m in lst], [m.ir is ir for m in ms]),
+                    ({"setitem-same-list": "[2] = modules[0]", "setslice-same-list": "[2:3] = [modules[0]]", "setslice-repeated-value": "[0:1] = [n, n]"}[shape], r, [ms.index(m) for m in lst], [m.ir is ir for m in ms]),
                     {"shape": shape, "result": repr(r)})
 
 
